@@ -38,6 +38,12 @@ CM_H = 'src/tbb/concurrent_monitor.h'
 CQ_H = 'include/oneapi/tbb/concurrent_queue.h'
 
 MUTANTS = [
+    dict(name='c18-seed-null-tls-deref', prop='C18', clause='D2', edits=[(FE_CPP, "        if (ptrDelta && tls) { // !tls is cold path", "        if (ptrDelta) {")]),
+    dict(name='c18-llocache-get-null-tls', prop='C18', clause='D2', edits=[(FE_CPP, """    if (tls) {
+        tls->markUsed();
+        lmb = tls->lloc.get(allocationSize);
+    }""", """    tls->markUsed();
+    lmb = tls->lloc.get(allocationSize);""")]),
     dict(name='c19-seed-waiter-leaves-on-uninitialized', prop='C19', clause='D1', edits=[(CO_H, "        } while (expected != state::done);", "        } while (expected > state::done);")]),
     dict(name='c15-seed-limiter-double-decrement', prop='C15', clause='D1', edits=[(FG_H, """                if( my_tries > 0 ) {
                     my_future_decrement += (size_t(delta) - my_count);
